@@ -62,6 +62,37 @@ func c09gen(c *h.Ctx, yield func(*h.Case)) {
 			ops = append(ops, "c09 send "+e+" 1,2 1", "c09 send "+e+" 2,1 1")
 		}
 		emitTo("corpus", "corpus-every-entry-dead-peer", ops...)
+		// wide fan-outs with many dead children (round 7, seeded C09r7-A: a bounded number of sends in flight whose
+		// slot is not given back on error): every multi-destination entry point returns, one error per dead destination
+		emitTo("corpus", "corpus-wide-fanout-dead-children",
+			"c09 open "+tr+" 0,3",
+			"c09 send parallel 1,2,3,4,5,6,7,8,9,10 1",
+			"c09 send multicast 10,9,8,7,6,5,4,3,2,1,0 1",
+			"c09 send broadcast 1,2,4,5,6,7,8,9,10,11,3 1",
+			"c09 send children 3,0,1,2,4,5,6,7,8,9 1",
+			"c09 send parallel 3,0 1")
+		for i, nw := 0, c.Pick(2, 24); i < nw; i++ {
+			// 9..11 children, 0..3 of them listen
+			nd := 9 + r.Intn(3)
+			perm := r.Perm(nd)
+			upN := r.Intn(4)
+			ups := []string{"0"}
+			var ds []string
+			for k, x := range perm {
+				if x == 0 {
+					// peer 0 is the second survivor: always up
+					ds = append(ds, "0")
+					continue
+				}
+				if k < upN {
+					ups = append(ups, strconv.Itoa(x))
+				}
+				ds = append(ds, strconv.Itoa(x))
+			}
+			e := []string{"parallel", "multicast", "broadcast", "parallel"}[r.Intn(4)]
+			emitTo("wide-fanout-"+tr, "wide-fanout-"+tr, "c09 open "+tr+" "+strings.Join(ups, ","),
+				"c09 send "+e+" "+strings.Join(ds, ",")+" 1", "c09 send parallel "+strings.Join(ds, ",")+" 1")
+		}
 		emitTo("corpus", "corpus-fail-detect-recover",
 			"c09 open "+tr+" 0,1,2", "c09 handler 10", "c09 handler 11",
 			"c09 send router 1 2", "c09 send sendto 2 1", "c09 send sendto 0 1",
